@@ -87,7 +87,7 @@ def run(o, ctx, tier, seed, replay=None):
     metas, lines = [], []
     for ops, gets, nodate in G.cases(seed, t):
         metas.append((ops, gets)); lines.append(G.line(ops, gets, nodate))
-    for fl in fuzz_cases(o, ctx, "hdr", t, seed):
+    for fl in fuzz_cases(o, ctx, "hdr", tier, seed):
         pl = G.parse_line(fl)
         if pl is not None:
             metas.append(pl); lines.append(fl)
